@@ -11,6 +11,9 @@ import sys
 VERIF = os.path.dirname(os.path.dirname(os.path.abspath(__file__)))
 REPO = os.environ.get("VERIF_REPO", "/repo")
 BUILD = os.path.join(VERIF, "build")
+if REPO != "/repo":
+    # scratch trees (mutants, seeded changes) get their own cache so that the real one stays warm
+    BUILD = os.path.join(VERIF, "build", "alt", hashlib.sha256(REPO.encode()).hexdigest()[:10])
 HARNESS = os.path.join(VERIF, "harness")
 
 GUARD = "-DASAM_CMP_LIB_VERIF"
